@@ -248,6 +248,10 @@ def check(ctx, rep):
              "entry by bytes that are not UTF-8 still equals that entry's selector, so hiding and merging work for it", floor=1)
     rep.rule("R07p", "= R10f: the selector filter lets ordinary names through (one character long, with dots or blanks inside, starting with a dot, "
              "not UTF-8) - a name it refuses drops out of every listing and cannot be fetched", floor=1)
+    rep.rule("R07s", "= R12f: the file-system view's predicates answer False for what cannot be looked at (name too long, directory not searchable) "
+             "instead of raising - the side-file probes of a long but valid name must not drop it from the listing", floor=1)
+    from .c12 import vfs_predicate_obligations
+    vfs_predicate_obligations(ctx, rep, "R07s")
     rep.rule("R07r", "a dot-file the ignore pattern matches is left out unread: it is parsed as a link file only when the pattern lets its name "
              "through (evaluated for the shipped patterns and the dot-file-excluding pattern the configuration file suggests)", floor=1)
     ignored_linkfile_obligations(ctx, rep, "R07r")
